@@ -238,7 +238,20 @@ def logJudge (f : List String) (out : String) : String :=
     | _, _ => "bad:unparsable:" ++ out
   | _, _ => "bad:unparsable:" ++ out
 
+/-!
+  c20.inject  format target user        out = lf=<n> cr=<m>: LF and CR bytes in the log after ONE request
+     the model: one record is one physical line (the formats of this stream contain no line break)
+-/
+def injectModel (_ : List String) : String := "lf=1 cr=0"
+
+def injectJudge (_ : List String) (out : String) : String :=
+  if out = "lf=1 cr=0" then "ok"
+  else if out.startsWith "lf=" then
+    "bad:line-split:one request produced a log record spanning several physical lines (" ++ out ++ ")"
+  else "bad:unparsable:" ++ out
+
 def streams : List Driver.Stream := [
+  { name := "c20.inject", model := injectModel, judge := injectJudge },
   { name := "c20.replace", model := replaceModel, judge := replaceJudge },
   { name := "c20.log", model := logModel, judge := logJudge }
 ]
